@@ -83,6 +83,39 @@ pub fn hll_sizes(c: &c02::Case, info: &mut CaseInfo) -> Result<(), Fail> {
             aux_max = aux_max.max(m.regs.iter().filter(|&&r| r - min >= 15).count());
         }
     }
+    // the bound belongs to the receiving configuration: the sketches fed to unions of their own and of smaller
+    // lg_max_k, followed by single values; no result image may exceed the Hll8 array bound of the union's lg_k
+    if lg_k <= 14 {
+        for lg_max in [lg_k, lg_k.saturating_sub(3).max(4), 4] {
+            for (j, sk) in sks.iter().enumerate() {
+                let mut u = datasketches::hll::HllUnion::new(lg_max);
+                u.update(sk);
+                let mut sm = SplitMix(c.perm_seed ^ j as u64);
+                for n in 0..600u32 {
+                    u.update_value(sm.next());
+                    if n == 0 || n == 40 || n == 599 {
+                        let lg_r = lg_max.min(lg_k);
+                        let kr = 1usize << lg_r;
+                        for (ti, t) in c02::TYPES.into_iter().enumerate() {
+                            // array images: Hll4 k/2 nibble bytes + 4 per aux entry (at most k), Hll6 3k/4 + 1, Hll8 k
+                            let bound = 40 + [kr / 2 + 4 * kr, 3 * kr / 4 + 1, kr][ti];
+                            let r = u.to_sketch(t);
+                            let len = r.serialize().len();
+                            ensure!(
+                                len <= bound && r.lg_config_k() <= lg_max,
+                                "C18.hll_union_image_size",
+                                "{} lg_k {lg_k} ({} coupons) fed to a union of lg_max_k {lg_max}, then {} values: result image ({}) has {len} bytes, the largest image of lg_k {lg_r} and that type has {bound}",
+                                c02::tname(c02::TYPES[j]),
+                                m.distinct,
+                                n + 1,
+                                c02::tname(t)
+                            );
+                        }
+                    }
+                }
+            }
+        }
+    }
     info.nontrivial = m.predicted_mode().0 == 2 && offered > (1u64 << lg_k);
     info.label(["ended=list", "ended=set", "ended=array"][m.predicted_mode().0 as usize]);
     if aux_max > 0 {
@@ -385,7 +418,7 @@ pub fn def() -> PropDef {
         subs: vec![
             Box::new(PropSub {
                 name: "hll_image_sizes",
-                rule: "C02's history generator (lg_k 4..=14 and 21, all three types); image length compared with 8+4c / 12+4c / 40 + {k/2, 3k/4+1, k} + 4 per aux entry, the mode taken from the model, at the first 40 ops, powers of two, periodically and at the end. non-trivial = array mode and more coupons than registers",
+                rule: "C02's history generator (lg_k 4..=14 and 21, all three types); image length compared with 8+4c / 12+4c / 40 + {k/2, 3k/4+1, k} + 4 per aux entry, the mode taken from the model, at the first 40 ops, powers of two, periodically and at the end; finally each sketch is fed to unions of its own and of smaller lg_max_k followed by 600 single values, whose result images must stay within the array bound of the union's lg_k. non-trivial = array mode and more coupons than registers",
                 cases_quick: 30_000,
                 cases_thorough: 120_000,
                 max_shrink_iters: 2000,
